@@ -16,6 +16,13 @@
 //!   `tokio::io::duplex` streams whose far end is a real `tonic::transport::Server` connection,
 //!   reached through a cable task the script can cut (`d`); `c` = one unary call through
 //!   `tonic::client::Grpc`.  Virtual time; every op is followed by a quiescence sleep.
+//! * `net <tcp|uds> <L|E> <script>` — the standard entry points `Endpoint::connect()` (`E`) /
+//!   `connect_lazy()` (`L`) against a real socket: a loopback TCP port (tonic's `HttpConnector`
+//!   path) or a unix socket (`unix:` endpoint, tonic's `UdsConnector`).  Script letters: `u` a
+//!   server starts listening (a new generation), `k` it goes away (listener closed, connections
+//!   dropped; `x`: and the socket file is unlinked), `b` the channel is built (exactly once,
+//!   before any call), `c` one unary call.  Real time; a closed TCP port is kept reserved by a
+//!   bound, non-listening socket so that nothing else can take it.
 //! * `cls <chain>` — `Status::from_error` on an error whose `source()` chain is built from the
 //!   tokens (`W<id>` user error type, `I.<Kind>` io::Error, `C` tonic::ConnectError, `S<code>`
 //!   Status, `T` TimeoutExpired, `H2.<reason>` h2::Error, `L` a rustls error, `Yh` the error of a
@@ -440,6 +447,56 @@ pub fn generate(tier: &str, rng: &mut Rng) -> Vec<String> {
             out.push(format!("e2n {} {} {}", m, tok(&outs), tok(&ops)));
         }
     }
+    // ---- net: the standard entry points over real sockets ----
+    // (these run in real time: they are spread over the whole case list at the end so that the
+    // worker threads share them)
+    for c in [
+        // an eager connect to a closed port / a missing or dead unix socket fails at once
+        "net tcp E bc",
+        "net uds E bc",
+        "net tcp E ukbc",
+        "net uds E ukbc",
+        "net uds E uxbc",
+        // a lazy channel, server started later, stopped, started again
+        "net tcp L bcuckcuc",
+        "net uds L bcuckcxcuc",
+        "net tcp E ubckcucc",
+        "net uds E ubcxcucc",
+        "net tcp L ubckuc",
+        "net tcp L bcccuccckcccuc",
+    ] {
+        out.push(c.to_string());
+    }
+    let post_max = if thorough { 5 } else { 3 };
+    for tr in ["tcp", "uds"] {
+        let downs: &[char] = if tr == "uds" { &['k', 'x'] } else { &['k'] };
+        let mut alpha = vec!['c', 'u'];
+        alpha.extend_from_slice(downs);
+        for m in modes {
+            for pre in ["", "u", "uk", "ukuk", "uku"] {
+                if !thorough && pre.len() > 2 {
+                    continue;
+                }
+                for post in all_strings_upto(&alpha, post_max) {
+                    if !post.contains('c') {
+                        continue;
+                    }
+                    out.push(format!("net {} {} {}b{}", tr, m, pre, post));
+                }
+            }
+        }
+    }
+    let n = if thorough { 600 } else { 40 };
+    for _ in 0..n {
+        let tr = *rng.pick(&["tcp", "uds"]);
+        let m = *rng.pick(&modes);
+        let pre = *rng.pick(&["", "u", "uk", "u"]);
+        let len = rng.range(3, 14) as usize;
+        let post = rand_string(rng, &[('c', 5), ('u', 2), ('k', 2), ('x', 1)], len);
+        let post = if tr == "tcp" { post.replace('x', "k") } else { post };
+        out.push(format!("net {} {} {}b{}", tr, m, pre, post));
+    }
+
     // ---- cls / e2x: how the error of a failed attempt is classified, whatever caused it ----
     let mut leaves: Vec<String> = IO_KINDS.iter().map(|(n, _)| format!("I.{}", n)).collect();
     for c in 0..=16 {
@@ -493,6 +550,28 @@ pub fn generate(tier: &str, rng: &mut Rng) -> Vec<String> {
             }
         }
     }
+    spread_real_time_cases(out)
+}
+
+/// Cases that run in real time (sockets, timers) are spread evenly over the list: the runner
+/// gives every worker thread one contiguous slice.
+fn spread_real_time_cases(cases: Vec<String>) -> Vec<String> {
+    let (slow, fast): (Vec<String>, Vec<String>) = cases.into_iter().partition(|c| c.starts_with("net ") || c.starts_with("conc "));
+    if slow.is_empty() {
+        return fast;
+    }
+    let stride = (fast.len() / slow.len()).max(1);
+    let mut out = Vec::with_capacity(fast.len() + slow.len());
+    let mut slow = slow.into_iter();
+    for (i, c) in fast.into_iter().enumerate() {
+        if i % stride == 0 {
+            if let Some(s) = slow.next() {
+                out.push(s);
+            }
+        }
+        out.push(c);
+    }
+    out.extend(slow);
     out
 }
 
@@ -1505,6 +1584,221 @@ fn run_e2x(lazy: bool, with_timeout: bool, cause: &str) -> String {
     })
 }
 
+// ------------------------------------------------------------------------------------------
+// net: Endpoint::connect() / connect_lazy() against a real loopback TCP port or unix socket
+// ------------------------------------------------------------------------------------------
+
+static NET_SEQ: std::sync::atomic::AtomicUsize = std::sync::atomic::AtomicUsize::new(0);
+
+type Cables = Arc<Mutex<Vec<tokio::task::JoinHandle<()>>>>;
+
+/// A freshly accepted transport stream gets a real tonic server (generation `gen`) behind a cable
+/// task that the script can cut.
+fn attach_peer<S>(mut stream: S, gen: usize, cables: &Cables, arrived: &tokio::sync::mpsc::UnboundedSender<usize>)
+where
+    S: tokio::io::AsyncRead + tokio::io::AsyncWrite + Unpin + Send + 'static,
+{
+    let (mut near, far) = tokio::io::duplex(16 * 1024);
+    let arrived = arrived.clone();
+    tokio::spawn(async move {
+        use tokio_stream::StreamExt;
+        let incoming = tokio_stream::once(Ok::<_, std::io::Error>(far)).chain(tokio_stream::pending());
+        let _ = tonic::transport::Server::builder()
+            .add_service(WhoAmI { id: gen, arrived })
+            .serve_with_incoming(incoming)
+            .await;
+    });
+    let cable = tokio::spawn(async move {
+        let _ = tokio::io::copy_bidirectional(&mut stream, &mut near).await;
+    });
+    cables.lock().unwrap().push(cable);
+}
+
+enum NetAddr {
+    /// port, and while no server listens: the bound, non-listening socket that keeps the port
+    Tcp(u16, Option<tokio::net::TcpSocket>),
+    Uds(std::path::PathBuf),
+}
+
+fn reserve_tcp(port: u16) -> Option<tokio::net::TcpSocket> {
+    let sock = tokio::net::TcpSocket::new_v4().ok()?;
+    sock.set_reuseaddr(true).ok()?;
+    sock.bind(std::net::SocketAddr::from(([127, 0, 0, 1], port))).ok()?;
+    Some(sock)
+}
+
+const NET_SETTLE: Duration = Duration::from_millis(25);
+const NET_WATCHDOG: Duration = Duration::from_secs(5);
+
+fn run_net(transport: &str, lazy: bool, script: &str) -> String {
+    let ops: Vec<char> = script.chars().collect();
+    let bpos = match ops.iter().position(|c| *c == 'b') {
+        Some(p) => p,
+        None => return "bad-case".into(),
+    };
+    if ops.iter().filter(|c| **c == 'b').count() != 1
+        || ops.iter().any(|c| !"ukxbc".contains(*c))
+        || ops[..bpos].contains(&'c')
+    {
+        return "bad-case".into();
+    }
+    let rt = tokio::runtime::Builder::new_current_thread().enable_all().build().unwrap();
+    let out = rt.block_on(async move {
+        let (arrived, _arrived_rx) = tokio::sync::mpsc::unbounded_channel::<usize>();
+        let cables: Cables = Arc::new(Mutex::new(Vec::new()));
+        let mut addr = if transport == "tcp" {
+            let sock = match reserve_tcp(0) {
+                Some(s) => s,
+                None => return "env:cannot-bind".to_string(),
+            };
+            let port = sock.local_addr().map(|a| a.port()).unwrap_or(0);
+            NetAddr::Tcp(port, Some(sock))
+        } else {
+            let n = NET_SEQ.fetch_add(1, std::sync::atomic::Ordering::SeqCst);
+            NetAddr::Uds(std::env::temp_dir().join(format!("verif-c14-{}-{}.sock", std::process::id(), n)))
+        };
+        let uri = match &addr {
+            NetAddr::Tcp(port, _) => format!("http://127.0.0.1:{}", port),
+            NetAddr::Uds(path) => format!("unix:{}", path.display()),
+        };
+        let endpoint = match tonic::transport::Endpoint::from_shared(uri) {
+            Ok(e) => e,
+            Err(_) => return "env:bad-uri".to_string(),
+        };
+        let mut gen = 0usize;
+        let mut accept: Option<tokio::task::JoinHandle<()>> = None;
+        let mut client: Option<tonic::client::Grpc<tonic::transport::Channel>> = None;
+        let mut out: Vec<String> = Vec::new();
+        for op in ops {
+            match op {
+                'u' => {
+                    if accept.is_some() {
+                        continue;
+                    }
+                    gen += 1;
+                    let g = gen;
+                    let cables = cables.clone();
+                    let arrived = arrived.clone();
+                    match &mut addr {
+                        NetAddr::Tcp(port, holder) => {
+                            let sock = match holder.take().or_else(|| reserve_tcp(*port)) {
+                                Some(s) => s,
+                                None => return "env:cannot-bind".to_string(),
+                            };
+                            let listener = match sock.listen(1024) {
+                                Ok(l) => l,
+                                Err(_) => return "env:cannot-listen".to_string(),
+                            };
+                            accept = Some(tokio::spawn(async move {
+                                while let Ok((stream, _)) = listener.accept().await {
+                                    let _ = stream.set_nodelay(true);
+                                    attach_peer(stream, g, &cables, &arrived);
+                                }
+                            }));
+                        }
+                        NetAddr::Uds(path) => {
+                            let _ = std::fs::remove_file(&*path);
+                            let listener = match tokio::net::UnixListener::bind(&*path) {
+                                Ok(l) => l,
+                                Err(_) => return "env:cannot-bind".to_string(),
+                            };
+                            accept = Some(tokio::spawn(async move {
+                                while let Ok((stream, _)) = listener.accept().await {
+                                    attach_peer(stream, g, &cables, &arrived);
+                                }
+                            }));
+                        }
+                    }
+                }
+                'k' | 'x' => {
+                    if let Some(a) = accept.take() {
+                        a.abort();
+                        let _ = a.await;
+                    }
+                    let cs: Vec<_> = cables.lock().unwrap().drain(..).collect();
+                    for c in cs {
+                        c.abort();
+                        let _ = c.await;
+                    }
+                    match &mut addr {
+                        NetAddr::Tcp(port, holder) => {
+                            if holder.is_none() {
+                                *holder = reserve_tcp(*port);
+                            }
+                        }
+                        NetAddr::Uds(path) => {
+                            if op == 'x' {
+                                let _ = std::fs::remove_file(&*path);
+                            }
+                        }
+                    }
+                    // let the client side see the FIN / RST
+                    tokio::time::sleep(NET_SETTLE).await;
+                }
+                'b' => {
+                    let channel = if lazy {
+                        out.push("build:ok".into());
+                        endpoint.connect_lazy()
+                    } else {
+                        match tokio::time::timeout(NET_WATCHDOG, endpoint.connect()).await {
+                            Err(_) => {
+                                out.push("build:hang".into());
+                                break;
+                            }
+                            Ok(Err(e)) => {
+                                let st = tonic::Status::from_error(Box::new(e));
+                                out.push(format!("build:err{}", st.code() as i32));
+                                break;
+                            }
+                            Ok(Ok(ch)) => {
+                                out.push("build:ok".into());
+                                ch
+                            }
+                        }
+                    };
+                    client = Some(tonic::client::Grpc::new(channel));
+                }
+                _ => {
+                    let client = match client.as_mut() {
+                        Some(c) => c,
+                        None => break,
+                    };
+                    let fut = async {
+                        client.ready().await.map_err(|e| tonic::Status::from_error(Box::new(e)))?;
+                        let path = http::uri::PathAndQuery::from_static("/verif.WhoAmI/Who");
+                        client
+                            .unary::<Vec<u8>, Vec<u8>, _>(tonic::Request::new(b"hi".to_vec()), path, raw::RawCodec)
+                            .await
+                            .map(|resp| String::from_utf8_lossy(resp.get_ref()).to_string())
+                    };
+                    match tokio::time::timeout(NET_WATCHDOG, fut).await {
+                        Err(_) => {
+                            out.push("c:hang".into());
+                            break;
+                        }
+                        Ok(Ok(body)) => match body.strip_prefix("hi@") {
+                            Some(g) => out.push(format!("c:resp{}", g)),
+                            None => out.push("c:garbled".into()),
+                        },
+                        Ok(Err(st)) => {
+                            if std::env::var("C14_DEBUG").is_ok() {
+                                eprintln!("net call: {:?} {}", st, source_chain(&st));
+                            }
+                            out.push(format!("c:err{}", st.code() as i32));
+                        }
+                    }
+                }
+            }
+        }
+        if let NetAddr::Uds(path) = &addr {
+            let _ = std::fs::remove_file(path);
+        }
+        out.join(" ")
+    });
+    drop(rt);
+    out
+}
+
 pub fn execute(case: &str) -> String {
     let t: Vec<&str> = case.split(' ').collect();
     match t.as_slice() {
@@ -1518,6 +1812,7 @@ pub fn execute(case: &str) -> String {
         ["e2d", m, et, outs, ops] if (*m == "L" || *m == "E") && ["-", "z", "n", "s", "l"].contains(et) => {
             run_e2e(*m == "L", outs, ops, true, et.chars().next().and_then(deadline_of))
         }
+        ["net", tr, m, script] if (*tr == "tcp" || *tr == "uds") && (*m == "L" || *m == "E") => run_net(tr, *m == "L", script),
         ["cls", chain] => run_cls(chain),
         ["e2x", m, t, cause] if (*m == "L" || *m == "E") && (*t == "t" || *t == "n") => run_e2x(*m == "L", *t == "t", cause),
         _ => "bad-case".into(),
